@@ -246,6 +246,9 @@ Proof.
   - (* MSetC *) split; [eapply root_dir_update; eauto|eapply pc_update; eauto].
   - (* MSetM *) split; [eapply root_dir_update; eauto|eapply pc_update; eauto].
   - (* MSetA *) split; [eapply root_dir_update; eauto|eapply pc_update; eauto].
+  - (* MGetReader: the access time of the opened file *)
+    match goal with H : s !! p = Some ?f |- _ =>
+      split; [eapply (root_dir_update s p f); eauto|eapply (pc_update s p f); eauto] end.
   - (* MInsertFile over a file *)
     match goal with H : has_parent s p = true |- _ => destruct (has_parent_dir s p H) as [Hne Hd] end.
     match goal with H : s !! p = Some ?f |- _ =>
